@@ -532,3 +532,85 @@ def partial_sites(unit):
                 and callee_attr(a.value) in ('split', 'rsplit') and not _caught(unit, a, ('ValueError', 'Exception', 'BaseException')):
             out.append((a, '%s raises ValueError when the separator is absent' % src(a)[:60]))
     return out
+
+
+# ------------------------------------------------------------ extract-method robustness
+class _Subst(ast.NodeTransformer):
+    def __init__(self, mapping):
+        self.mapping = mapping
+
+    def visit_Name(self, node):
+        if isinstance(node.ctx, ast.Load) and node.id in self.mapping:
+            import copy as _c
+            return ast.copy_location(_c.deepcopy(self.mapping[node.id]), node)
+        return node
+
+
+def inline_local_helpers(unit):
+    """A view of `unit` in which statement-level calls of its own nested, return-less helper functions
+    (`helper(a, b)` as an expression statement) are replaced by the helper's body with the arguments
+    substituted for the parameters.  Rules that describe the shape of a function then see the same thing
+    whether or not a duplicated block was folded into a local helper.  Helpers that assign to a parameter,
+    use *args/**kw, defaults, yield, or return a value are left alone."""
+    import copy as _c
+    helpers = {}
+    for ch in unit.children:
+        n = ch.node
+        if not isinstance(n, ast.FunctionDef) or n.decorator_list:
+            continue
+        a = n.args
+        if a.vararg or a.kwarg or a.kwonlyargs or a.defaults or getattr(a, 'posonlyargs', []):
+            continue
+        params = [x.arg for x in a.args]
+        body = [b for b in n.body if not (isinstance(b, ast.Expr) and isinstance(b.value, ast.Constant))]
+        bad = False
+        for b in body:
+            for x in ast.walk(b):
+                if isinstance(x, (ast.Yield, ast.YieldFrom, ast.Await, ast.Nonlocal, ast.Global)) or (isinstance(x, ast.Return) and x.value is not None):
+                    bad = True
+                if isinstance(x, ast.Name) and isinstance(x.ctx, ast.Store) and x.id in params:
+                    bad = True
+                if isinstance(x, ast.Return):
+                    bad = True      # early returns would need control-flow rewriting
+        if not bad and body:
+            helpers[n.name] = (params, body, n)
+    if not helpers:
+        return unit
+    used = set()
+
+    class _Inline(ast.NodeTransformer):
+        def visit_FunctionDef(self, node):
+            if node is root:
+                self.generic_visit(node)
+                return node
+            return node
+
+        def visit_Expr(self, node):
+            c = node.value
+            if isinstance(c, ast.Call) and isinstance(c.func, ast.Name) and c.func.id in helpers and not c.keywords:
+                params, body, hn = helpers[c.func.id]
+                if len(c.args) == len(params) and not any(isinstance(x, ast.Starred) for x in c.args):
+                    used.add(c.func.id)
+                    sub = _Subst(dict(zip(params, c.args)))
+                    out = []
+                    for b in body:
+                        nb = sub.visit(_c.deepcopy(b))
+                        for x in ast.walk(nb):
+                            if hasattr(x, 'lineno'):
+                                x.lineno = node.lineno
+                                x.end_lineno = getattr(node, 'end_lineno', node.lineno)
+                        out.append(nb)
+                    return out
+            return node
+    root = _c.deepcopy(unit.node)
+    new = _Inline().visit(root)
+    if not used:
+        return unit
+    # drop the inlined helper definitions when nothing else refers to them
+    new.body = [b for b in new.body if not (isinstance(b, ast.FunctionDef) and b.name in used and
+                                            not any(isinstance(x, ast.Name) and x.id == b.name for y in new.body if y is not b for x in ast.walk(y)))]
+    ast.fix_missing_locations(new)
+    view = _c.copy(unit)
+    view.node = new
+    view.children = [ch for ch in unit.children if ch.name not in used]
+    return view
